@@ -655,6 +655,8 @@ def run(c, facts):
     c.shared(R16, c10.r4_invalid, 'C10.R4', facts)
     R10 = c.rule('C13.R10', 'LOCATORS: every front end resolves and opens the file the user named: Url::join / Url::to_file_path, validity from the file system at load time (shared with C10.R7)')
     c.shared(R10, c10.r7_locators, 'C10.R7', facts)
+    import c04 as _c04s
+    c.run(lambda c: _c04s.r5_status_conv(c, facts, rule='C13.R20'))      # an out-of-range status literal is an evaluation error in every front end
     import c14 as _c14
     import c17 as _c17
     R18 = c.rule('C13.R18', 'CONFIG-INDEPENDENT: paths and components of the written document come from the program alone, with a base as without one - the base contributes the frame (shared with C14.R3)')
